@@ -36,6 +36,19 @@ file, so the equivalence theorem no longer compiles and the check reports a brok
               one loop statement), `skip` (statements whose effect is supplied as parameters), `attrs` (attribute / item
               chains that are parameters), `state` (what the method leaves in `self`, returned beside the value)
 
+  objects     (entries with `token_class`: the Tokenizer / Token classes of tokenizer.py)  `self.X` of a Tokenizer as parameter /
+              state variable (`state_attrs`), `self.m()` of another translated method with the attributes threaded through (the
+              callee's `state` rebinds the caller's variables; a method that starts changing an attribute its entry does not return
+              is untranslatable), `X.append(v)`, `del X[:]`, `X.pop()`; `Token(v, T[, S])` / `cls(…)` as the structure Tokenizer.Tok,
+              `t.value / .type / .subtype`, `Token.NAME` / `cls.NAME` / `self.NAME` as enum members (law read from the live class:
+              `token_law`), classmethods and `<token>.get_closer()` as calls of translated functions; `x in "…"` (substring),
+              `x in (a, b, …)`, `s.startswith(p)` / `s.endswith(p)`, `a and b and …` / `or` as a test with operands that can raise
+              (evaluated only when reached), `if m is None: <raise>` narrowing, `try: <assignments> / except <Class>: … / else: …`
+              (a match on the PyM outcome), the dispatch-dict idiom of `Tokenizer.parse` (`find_dispatch`: the dict is the list of
+              its (chars, method) pairs, PyT.dispatchFind), `tables` (a class-level dict of third-party objects looked up by
+              key), externs whose law is for a literal argument (compared at translation time), `live_laws` (facts about the
+              live module an extern rests on, checked at translation time), `for` loops that return with state
+
 Every construct is translated to the operation of Py/Trans.lean / Py/Basic.lean that states its Python
 meaning; everything that can raise lives in `PyM = Except PyExc`.
 """
